@@ -147,6 +147,9 @@ type Step struct {
 	// signal timeout; Inner is the clock advance of the ticks inside a round (time passes while a
 	// background coroutine waits for the store)
 	Inner int64 `json:"inner,omitempty"`
+	// settle: when FaultSeed is set the store/router/sender work inside the rounds suffers
+	// failures before and after processing and SQL errors, drawn from that seed
+	FaultSeed int64 `json:"fault_seed,omitempty"`
 
 	// engine S: one store batch (JSON of []*t_aio.Transaction), observe the
 	// database through a second connection before statement ObserveAt
